@@ -623,7 +623,9 @@ def c09(res, rng, tier, replay=None):
     exprs = gen_exprs(rng, n // 2)
     g = G.ExprGen(rng, wild=0.03, maxdepth=2)
     tails = ['<<*/*/%B>%B>*', '<<*/*/%B>>*', '<<*/%B>%B>*', '<<*/*/*/%B>:1,>*', '<*/%B>*', '<*/%B>', '<*/%B>**', '<**/%B>*', '<*/*/%B>*', '<</*%B>%B>', '**/<*%B>', '<*%B>/**', '/**', '**', '**/*', '**/{%s}', '**/<%s:1,2>', '/**/<%s:>', '{%s,**/%s}', '<*/>', '**/*/', '{a/**,%s/**}', '<%s/**:1,>',
-             '**/%s/**', '{**/%s,b/**}', '<%s/:1,>**', '**/{%s,%s/**}', '{%s/**,**}']
+             '**/%s/**', '{**/%s,b/**}', '<%s/:1,>**', '**/{%s,%s/**}', '{%s/**,**}',
+             # a bounded branch at the front of the body of an unbounded repetition (repaired by 8aceb3d), and its unbounded relatives
+             '<{%s}/:1,>*', '<<%s:1>/:1,>*', '*<<?*:2>/*:1,>', '<{%s}/*:1,>', '<<?>/:1,>*', '<<%s>/>*', '<<?:1,3>/>*', '<{%s,*}/:1,>*', '<{*}/%B>*', '<{%s}/%B>*', '<<??>/>*', '<<?*>/>*', '<<?*?>/>*', '/**/<?/?:>', '<<?>/>', '<<*?>/%B>*', '<<{?,??}>/>*']
     while len(exprs) < n:
         t = rng.choice(tails)
         while '%B' in t:
